@@ -172,9 +172,23 @@ def stepLine (d : DSt) (line : String) : DSt × String :=
       let dur := effDurNs d.gw ttl
       -- a timer armed with a duration ≤ 0 fires at once
       let shown := if dur ≤ 0 then "0" else if dur ≥ 3000000000 then "gt3000" else toString (roundEff (dur / 1000000))
-      (s!"{t}:eff={shown}", if dur ≤ 0 then (if eff ≤ 0 then "C14-ttl-floor" else "C14-ttl-overflow") else ""))
+      (s!"{t}:timeout={shown}", if dur ≤ 0 then (if eff ≤ 0 then "C14-ttl-floor" else "C14-ttl-overflow") else ""))
     let flags := (rs.map (·.2)).filter (· != "") |>.eraseDups
     (d, "gwttl " ++ " ".intercalate (rs.map (·.1)) ++ (if flags.isEmpty then "" else "\t#F:" ++ ",".intercalate flags))
+  | "gwrace" :: obs =>
+    -- holder 1, waiter 2 (stopped before its select); 2's caller gives up; 1 unlocks: 2 is granted.  With the
+    -- caller's context handed to the locker both branches are enabled and the observed one is followed; with
+    -- a detached context only `acquire` is.
+    let k := "gwrace"
+    let d0 := { d with keys := d.keys.filter (·.1 != k) }
+    let d1 := applyAct (applyAct (applyAct (applyAct d0 k (.enqueue 1)) k (.acquire 1)) k (.enqueue 2)) k (.unlock 1)
+    let granted := decide (2 ∈ (getKey d1 k).q.ready)
+    let cancelTaken := !d.withoutCancel && obs == ["cancel"]
+    let d2 := if cancelTaken then applyAct d1 k (.cancel 2)
+              else applyAct (applyAct d1 k (.acquire 2)) k (.unlock 2)
+    let left := (getKey d2 k).q.callers.length
+    let msg := if !granted then "gwrace not-granted" else if cancelTaken then s!"gwrace cancel err left={left}" else s!"gwrace acq ok left={left}"
+    ({ d with keys := d.keys }, msg)
   | ["gwcancel"] => (d, if d.withoutCancel then "gwcancel kept acq" else "gwcancel removed err")
   | _ => (d, "bad-op")
 
